@@ -72,6 +72,16 @@ def handle : List String → String
         | some v => showB (midStmt t st n (some v))
         | none => "bad-op"
     | _, _, _ => "bad-op"
+  | ["flset", b, toff, tlen, soff, slen, dir] =>
+    match ofHex b, toff.toNat?, tlen.toNat?, soff.toNat?, slen.toNat? with
+    | some b, some toff, some tlen, some soff, some slen =>
+      showB (lsetField b toff tlen soff slen (dir == "r"))
+    | _, _, _, _, _ => "bad-op"
+  | ["fmid", b, toff, tlen, soff, slen, st, n] =>
+    match ofHex b, toff.toNat?, tlen.toNat?, soff.toNat?, slen.toNat?, parseV st, parseOptV n with
+    | some b, some toff, some tlen, some soff, some slen, some st, some n =>
+      showB (midsetField b toff tlen soff slen st n)
+    | _, _, _, _, _, _, _ => "bad-op"
   | _ => "bad-op"
 
 end PcbV.Drv.C09
